@@ -585,6 +585,25 @@ def riEntry {α : Type} (r dc : Nat) : TD α → Except Err (TD α)
 termination_by e => (sizeOf e, 0)
 end
 
+/-- the public `repeat_interleave(r, dim)` (_td.py:repeat_interleave, top of the function): a 0-d batch is unsqueezed first
+(`self.unsqueeze(0).repeat_interleave(…)`); with `dim=None` a batch of rank > 1 is flattened with `reshape(-1)`, then dim 0 -/
+def riPublic {α : Type} (r : Int) (d : Option Int) (bs : Shape) (names : Names) (es : List (String × TD α)) : Except Err (TD α) :=
+  if bs.length = 0 then
+    match tdNode (.unsqueeze 0) bs names es with
+    | .error e => .error e
+    | .ok (.leaf _) => .error .type
+    | .ok (.node bs1 n1 e1) => riNode r (d.getD 0) bs1 n1 e1
+  else
+    match d with
+    | some d => riNode r d bs names es
+    | none =>
+      if bs.length > 1 then
+        match tdNode (.reshape [-1]) bs names es with
+        | .error e => .error e
+        | .ok (.leaf _) => .error .type
+        | .ok (.node bs1 n1 e1) => riNode r 0 bs1 n1 e1
+      else riNode r 0 bs names es
+
 /-! ### torch.stack / torch.cat of tensordicts (dense result; _torch_func.py:_stack / _cat after the dim range-check fixes) -/
 
 def lookupEntry {α : Type} (k : String) : List (String × TD α) → Option (TD α)
@@ -819,5 +838,10 @@ def NamedList : List (String × TD α) → Prop
   | [] => True
   | (_, e) :: rest => Named e ∧ NamedList rest
 end
+
+/-- every column has `n` elements, each coherent and carrying `bs'` as a prefix -/
+def ColsOK (bs' : Shape) (n : Nat) (cols : List (String × List (TD α))) : Prop :=
+  ∀ c ∈ cols, c.2.length = n ∧ ∀ e ∈ c.2, PrefixOK bs' e ∧ Coherent e
+
 
 end TdVerif.C02
